@@ -141,6 +141,7 @@ func (vc *VC) loopHeader(fr *frame, n *Node, phis []*ssa.Phi, entryVals map[*ssa
 				vc.emit(strings.TrimSpace(wf))
 			}
 		}
+		vc.havocFresh(n.st, preSt, mods)
 	}
 	hv := map[*ssa.Phi]Val{}
 	for _, phi := range phis {
@@ -983,6 +984,7 @@ func (vc *VC) execGo(fr *frame, n *Node, x *ssa.Go) {
 // havocMods havocs the memories in ms (used for calls and barriers).
 func (vc *VC) havocMods(n *Node, ms *ModSet) {
 	st := n.st
+	pre := st.clone()
 	if ms.all || ms.allocates {
 		wm := vc.decl("wm.c", "Int")
 		vc.assume(fmt.Sprintf("(>= %s %s)", wm, st.wm))
@@ -1001,6 +1003,22 @@ func (vc *VC) havocMods(n *Node, ms *ModSet) {
 				vc.emit(strings.TrimSpace(wf))
 			}
 		}
+		vc.havocFresh(st, pre, ms)
+	}
+}
+
+// havocFresh: memories written only inside objects allocated after `pre`: new version that
+// agrees with the old one on every object that existed before (frame for fresh-only writes).
+func (vc *VC) havocFresh(st, pre *State, ms *ModSet) {
+	for _, m := range ms.freshNames(vc) {
+		t := vc.enc.mems[m]
+		old := vc.memAtByName(pre, m)
+		nw := vc.decl(m+".f", vc.memSortByName(m, t))
+		st.mem[m] = nw
+		if wf := vc.memWF(m, nw, st.wm); wf != "" {
+			vc.emit(strings.TrimSpace(wf))
+		}
+		vc.emit(fmt.Sprintf("(assert (forall ((p Ptr)) (! (=> (<= (p.obj p) %s) (= (select %s p) (select %s p))) :pattern ((select %s p)))))", pre.wm, nw, old, nw))
 	}
 }
 
